@@ -324,7 +324,7 @@ func Main(id string) {
 					var keep, adv []int
 					for _, op := range ops {
 						sc := AllScenarios[op]
-						if sc.P != 0 || (sc.Q1 != 0 && sc.Q1 != 2) || sc.Q2 == 1 {
+						if sc.P != 0 || (sc.Q1 != 0 && sc.Q1 != 2 && sc.Q1 != 4) || sc.Q2 == 1 {
 							continue
 						}
 						if sc.L > 0 || sc.J > 0 {
